@@ -732,7 +732,13 @@ def floor(index, rep, db):
     fh = index.func(OPT, "Optimizer.constrain_next_optimization_to_have_same_minimum_starvation")
     rets = [norm_src(r.value) for r in fh.body if isinstance(r, ast.Return)]
     fhp = lp_model_param(fh)
-    rep.check(len(rets) == 1 and fhp is not None and rets[0].startswith(f"({fhp}, ") and rets[0][len(fhp) + 3:-1] in [a.arg for a in fh.args.args], rule, "floor-helper:returns-model", "the floored model is not returned", loc=loc(OPT, fh))
+    # ... or, written as a procedure, adds to the LP object it is given in place (`model += ...` on a PuLP problem returns the same object) and
+    # returns nothing: the caller's variable then is the floored model
+    procedure = not rets and fhp is not None and any(isinstance(n_, ast.AugAssign) and isinstance(n_.target, ast.Name) and n_.target.id == fhp
+                                                     for n_ in walk_no_nested(fh)) and not any(
+        isinstance(n_, ast.Assign) and any(isinstance(t_, ast.Name) and t_.id == fhp for t_ in n_.targets) for n_ in walk_no_nested(fh))
+    rep.check(procedure or (len(rets) == 1 and fhp is not None and rets[0].startswith(f"({fhp}, ") and rets[0][len(fhp) + 3:-1] in [a.arg for a in fh.args.args]),
+              rule, "floor-helper:returns-model", "the floored model is not returned (nor floored in place)", loc=loc(OPT, fh))
     # what the first tie-breaking solve receives as its model is result 0 of a floor helper (on every branch), and the floor helper itself
     # received this function's model parameter
     later = [c for c in ast.walk(fn) if isinstance(c, ast.Call) and dotted(c.func) == "self." + need[1]]
@@ -742,7 +748,15 @@ def floor(index, rep, db):
     h1 = index.func(OPT, "Optimizer." + need[1])
     h1p = lp_model_param(h1)
     ok = len(later) == 1 and model_p is not None and h1p is not None and fhp is not None and h1p in _baf(later[0], h1)
-    if ok:
+    if ok and procedure:
+        # the later solve receives this routine's own model variable, which the floor procedure was handed before (on the to-humans branch)
+        # and which is not rebound in between
+        got_later = _baf(later[0], h1)[h1p]
+        floor_calls = [c for c in ast.walk(fn) if isinstance(c, ast.Call) and dotted(c.func) == "self.constrain_next_optimization_to_have_same_minimum_starvation"]
+        rebinds = [s_ for s_ in walk_no_nested(fn) if isinstance(s_, ast.Assign) and any(isinstance(t_, ast.Name) and t_.id == model_p for t_ in s_.targets)]
+        ok = isinstance(got_later, ast.Name) and got_later.id == model_p and len(floor_calls) == 1 and not rebinds and \
+            floor_calls[0].lineno < later[0].lineno and norm_src(_baf(floor_calls[0], fh).get(fhp) or ast.Constant(value=None)) == model_p
+    elif ok:
         alts = inl_f.at(later[0]).alternatives(_baf(later[0], h1)[h1p]) or []
         ok = bool(alts) and all(a_.startswith("self.constrain_next_optimization_to_have_same_") and a_.endswith("[0]") for a_ in alts)
         threaded = False
